@@ -97,6 +97,29 @@ def run(chk):
     core.differential(chk, "docs_treeinfo:discinfo", dcases, "dump_di", model_cases=[c["desc"] for c in dcases], impl_fn="impl_discinfo",
                       oracle=oracle_di, nontrivial=lambda c, r: c["desc"]["disc_numbers"] != ["ALL"],
                       normalise=lambda r: r[:2] if (isinstance(r, list) and r and r[0] == "ok") else r)
+    # the same cycle through file paths, in child interpreters whose locale encoding is and is not UTF-8: whatever is written is read back
+    lcases = [{"env": e} for e in ({"LC_ALL": "C.UTF-8", "LANG": "C.UTF-8"},
+                                   {"LC_ALL": "C", "LANG": "C", "PYTHONUTF8": "0", "PYTHONCOERCECLOCALE": "0"},
+                                   {"LC_ALL": "POSIX", "LANG": "POSIX", "PYTHONUTF8": "0", "PYTHONCOERCECLOCALE": "0"})]
+    ir = core.ImplRunner("docs_treeinfo", fn="impl_locale_cycle", per_case_timeout=90.0)
+    try:
+        lres = ir.run(lcases)
+    finally:
+        ir.close()
+    lstat = {}
+    for c, r in zip(lcases, lres):
+        if not (isinstance(r, list) and r and r[0] == "ok"):
+            chk.obligation("suite:docs_treeinfo:locale", False, "child interpreter failed under %r: %r" % (c["env"], r))
+            continue
+        for kind, name, what, detail in r[1]:
+            lstat[what] = lstat.get(what, 0) + 1
+            if what == "written-but-unreadable" or (what == "read-back" and detail is not True):
+                chk.violation("with the environment %r, a %s naming %r was written to a path and then %s" %
+                              (c["env"], kind, name, "could not be read back (%s)" % detail if what != "read-back" else "read back changed"),
+                              {"env": c["env"], "kind": kind, "name": name}, "docs_treeinfo:locale")
+    chk.add_cases(lcases, [True] * len(lcases))
+    chk.obligation("suite:docs_treeinfo:locale", lstat.get("read-back", 0) > 0, str(lstat))
+    chk.record_suite("docs_treeinfo:locale", {"environments": [c["env"] for c in lcases], "outcomes": lstat})
     return chk.finish(
         rule="trees: binary and src arches, layered releases, 1-3 top-level variants incl. dashed UIDs, child variants of every type to "
              "depth 3, any subset of the seven path kinds, image tables per platform, stage2, media, checksums; every main-variant "
